@@ -13,7 +13,7 @@ WEIGHTS = {"call": 30, "signal": 14, "reply": 12, "request": 14, "release": 5, "
            "forged": 3, "query": 2, "driver_edge": 1, "badtype": 2, "nodest": 1, "garbage": 1, "removematch": 1}
 
 
-def frozen_clause(i, op, per, tk, bad, dropped=()):
+def frozen_clause(i, op, per, tk, bad, dropped=(), used=None):
     """a batch the daemon found all at once (calls, and hang-ups of their addressees among them): whatever order it served
     them in, a method call whose sender is still there was either delivered once to a connection entitled to the name, or
     answered by the bus with exactly one error - never both, never neither"""
@@ -29,8 +29,9 @@ def frozen_clause(i, op, per, tk, bad, dropped=()):
         if d is None or d == BUS or tk.primary(d) == "?":
             continue
         key = (a, fld(l, "ser"))
-        if key in seen or sum(1 for s2, l2 in zip(sends, lines) if l2 and s2[1] == a and fld(l2, "ser") == fld(l, "ser")) > 1:
-            continue            # a reused serial: copies and errors cannot be told apart
+        if key in seen or sum(1 for s2, l2 in zip(sends, lines) if l2 and s2[1] == a and fld(l2, "ser") == fld(l, "ser")) > 1 or \
+                (used is not None and fld(l, "ser") in used.get(a, ())):
+            continue            # a reused serial (in this batch, or of an earlier call that may still be outstanding): copies and errors cannot be told apart
         seen.add(key)
         me = tk.names[a]
         if d.startswith(":"):
@@ -57,11 +58,17 @@ def frozen_clause(i, op, per, tk, bad, dropped=()):
 def oracle(tr):
     bad = []
     tk = Tracker()
+    used = {}           # cid -> serials it has used so far
     for i, (per, closed) in enumerate(tr.steps):
         tk.before(i, tr)
         op = tr.ops[i]
+        if op[0] == "send" and tr.sent(i):
+            used.setdefault(op[1], set()).add(fld(tr.sent(i), "ser"))
         if op[0] == "frozen":
-            frozen_clause(i, op, per, tk, bad, dropped=closed)
+            frozen_clause(i, op, per, tk, bad, dropped=closed, used=used)
+            for s_, l_ in zip([s for s in op[1] if s[0] == "send"], buscheck.decode_sent([s[2] for s in op[1] if s[0] == "send"])):
+                if l_:
+                    used.setdefault(s_[1], set()).add(fld(l_, "ser"))
             tk.after(i, tr)
             continue
         sent = tr.sent(i) if op[0] == "send" else None
